@@ -379,7 +379,7 @@ func (g *G) intExpr(d int) hs.Expr {
 		var r hs.Expr
 		switch op {
 		case "/", "%":
-			if g.c.Fatal && g.chance("divZero", 6) && !(op == "%" && g.c.off("mod-zero")) {
+			if g.c.Fatal && g.chance("divZero", 2) && !(op == "%" && g.c.off("mod-zero")) {
 				r = hs.IntLit{V: 0}
 				g.feat("div-zero")
 			} else {
@@ -706,15 +706,15 @@ func (g *G) indexExpr(t hs.Type, d int) (hs.Expr, bool) {
 	}
 	var idx hs.Expr
 	if n > 0 {
-		if g.c.Fatal && g.chance("oob", 5) {
+		if g.c.Fatal && g.chance("oob", 2) {
 			idx = hs.IntLit{V: int64(n + g.intn("oobBy", 0, 2))}
 			g.feat("index-oob")
 		} else {
 			idx = hs.IntLit{V: int64(g.intn("idx", -n, n-1))}
 		}
 	} else {
-		// variable list: length unknown statically; index 0 / -1 (may be out of range when empty)
-		idx = hs.IntLit{V: int64(g.intn("idxVarI", -1, 1))}
+		// variable list: length unknown statically; index 0 / -1 (out of range only when empty)
+		idx = hs.IntLit{V: int64(g.intn("idxVarI", -1, 0))}
 	}
 	g.feat("index")
 	return hs.Index{X: base, I: idx, T: t}, true
